@@ -691,6 +691,6 @@ def selftest():
 
 
 SUBCHECKS = [
-    Subcheck("history", histories, check_history, classify, quick=900, thorough=40000),
-    Subcheck("recfile_history", recfile_histories, check_recfile_history, classify, quick=400, thorough=15000),
+    Subcheck("history", histories, check_history, classify, quick=2700, thorough=40000),
+    Subcheck("recfile_history", recfile_histories, check_recfile_history, classify, quick=1200, thorough=15000),
 ]
